@@ -399,7 +399,7 @@ func c02r5(r *R) {
 	pw := r.method(mpkg, "patternFlushWriter", "Write")
 	ps, _ = enumPaths(pw, 512, 1)
 	why = nil
-	nFlush := 0
+	nFlush, nSpan := 0, 0
 	for _, p := range ps {
 		if p.eventIndex(0, "call", eq("invoke io.Writer.Write($0.w, $1)")) != 0 {
 			why = append(why, "first action is not Write(p) on the underlying writer")
@@ -420,12 +420,18 @@ func c02r5(r *R) {
 		if flushed {
 			nFlush++
 		}
+		if flushed && spans && !inside {
+			nSpan++
+		}
 		if !werr {
 			last := p.Mem["$0.last"]
 			if p.holds("(invoke io.Writer.Write($0.w, $1)#0 > 0)") && last != "$1[(invoke io.Writer.Write($0.w, $1)#0 - 1)]" {
 				why = append(why, "last byte remembered as "+last)
 			}
 		}
+	}
+	if nSpan == 0 {
+		why = append(why, "a pattern split across two writes (CR at the end of one, LF at the start of the next) no longer triggers a flush")
 	}
 	r.check(nFlush > 0 && len(why) == 0, "patternFlushWriter.Write", pw.Pos(), "p forwarded unmodified; flush iff the pattern ends in / spans into p; last byte kept", strings.Join(dedupStrings(why), "; "))
 	// isTextEventStream
